@@ -350,7 +350,7 @@ def rule_b(ctx):
         return
     if sem is not None:
         # right kinds in every case, but a data term this rule cannot compare with the documented one: not decided
-        ctx.ob(R, fb.qname, "3 channels -> OpticalImage; rank 2 -> ScalarImage; single channel -> ScalarImage(squeezed); else raise", False, "", fb.node)
+        ctx.ob(R, fb.qname, "3 channels -> OpticalImage; rank 2 -> ScalarImage; single channel -> ScalarImage(squeezed); else raise", False, "", fb.node, evidence=False)
         return
     am = AM(fb)
     arms = []
@@ -372,7 +372,7 @@ def rule_b(ctx):
             ok = ok and am.eq(test, wt)
             rets = [r for x in body for r in ast.walk(x) if isinstance(r, ast.Return)]
             ok = ok and len(rets) == 1 and isinstance(rets[0].value, ast.Call) and norm(rets[0].value.func) == wc and any(k.arg == "img" and am.eq(k.value, wi) for k in rets[0].value.keywords)
-    ctx.ob(R, fb.qname, "3 channels -> OpticalImage; rank 2 -> ScalarImage; single channel -> ScalarImage(squeezed); else raise", ok, str(am.show()), fb.node)
+    ctx.ob(R, fb.qname, "3 channels -> OpticalImage; rank 2 -> ScalarImage; single channel -> ScalarImage(squeezed); else raise", ok, str(am.show()), fb.node, evidence=False)
 
 
 def _bytes_cases(fb):
